@@ -445,7 +445,12 @@ func runC12(c *Ctx) {
 		if cmpCall == nil {
 			return "", nil, 0, "no comparison steering a branch"
 		}
+		inHeader, _, _ := inlineSearch(g, isCmpVal, cmpCall)
 		isSearch := func(in ssa.Instruction) *ssa.Function {
+			// a binary search written out in the function itself: entering its loop is "the search"
+			if inHeader != nil && in.Block() == inHeader && in == inHeader.Instrs[0] {
+				return g
+			}
 			call, ok := in.(*ssa.Call)
 			if !ok {
 				return nil
@@ -570,6 +575,12 @@ func runC12(c *Ctx) {
 			continue
 		}
 		l, lwhy := lean(search)
+		if origin(search).Pkg != nil && origin(search).Pkg.Pkg.Name() == "slice" {
+			// the search may be a loop written out in the function that was found to reach it
+			if h, il, iw := inlineSearch(search, nil, nil); h != nil && il != "" && (l == "" || search == fn || origin(search).Name() == tc.name) {
+				l, lwhy = il, iw+" (search loop written out in "+search.Name()+")"
+			}
+		}
 		// slices.BinarySearchFunc leans left for a comparison that reports equality; an adapter that never answers 0
 		// decides the lean itself: what it answers when the user's comparison says "equal" is the side equal elements
 		// are put on
@@ -872,4 +883,93 @@ func ruleResultNotInput(c *Ctx, rule string, names []string) {
 		sort.Strings(ps)
 		c.judge(len(ps) == 0, rule, "slice."+n+":result is not an input", pos, "a non-empty result never aliases a parameter", fmt.Sprintf("the function can return (a slice of) its own argument %v: a shortcut that answers with an input skips the computation for inputs it misjudges, and the result shares storage with the caller's slice", ps))
 	}
+}
+
+// inlineSearch recognises a binary search written out as a loop in g: a branch on `cmp(…) OP 0` (a call of the
+// comparison, other than `not`) whose true edge carries the probe position into one loop variable (high) and
+// leaves the other alone, and whose false edge advances the other (low) and leaves the first alone.  It returns
+// the loop header and the lean: OP `>` leans right (first index whose element is greater), `>=` leans left.
+func inlineSearch(g *ssa.Function, isCmpVal func(ssa.Value) bool, not *ssa.Call) (*ssa.BasicBlock, string, string) {
+	if g == nil || g.Blocks == nil {
+		return nil, "", ""
+	}
+	var header *ssa.BasicBlock
+	var res, why string
+	allInstrs(g, func(in ssa.Instruction) {
+		iff, ok := in.(*ssa.If)
+		if !ok || header != nil {
+			return
+		}
+		bo, ok := iff.Cond.(*ssa.BinOp)
+		if !ok || !isConstInt(bo.Y, 0) {
+			return
+		}
+		call, ok := bo.X.(*ssa.Call)
+		if !ok || call == not || call.Call.StaticCallee() != nil {
+			return
+		}
+		if isCmpVal != nil && !isCmpVal(call.Call.Value) {
+			return
+		}
+		tb, fb := iff.Block().Succs[0], iff.Block().Succs[1]
+		// the loop header both arms return to
+		reachHeader := func(from *ssa.BasicBlock) (*ssa.BasicBlock, *ssa.BasicBlock) {
+			b := from
+			prev := iff.Block()
+			for i := 0; i < 4; i++ {
+				if b.Dominates(iff.Block()) && b != iff.Block() {
+					return b, prev
+				}
+				if len(b.Succs) != 1 {
+					return nil, nil
+				}
+				prev, b = b, b.Succs[0]
+			}
+			return nil, nil
+		}
+		ht, pt := reachHeader(tb)
+		hf, pf := reachHeader(fb)
+		if ht == nil || ht != hf {
+			return
+		}
+		edge := func(ph *ssa.Phi, pred *ssa.BasicBlock) ssa.Value {
+			for j, p := range ht.Preds {
+				if p == pred {
+					return ph.Edges[j]
+				}
+			}
+			return nil
+		}
+		var hi, lo *ssa.Phi
+		for _, in2 := range ht.Instrs {
+			ph, ok := in2.(*ssa.Phi)
+			if !ok {
+				break
+			}
+			et, ef := edge(ph, pt), edge(ph, pf)
+			if et == nil || ef == nil {
+				continue
+			}
+			switch {
+			case et != ssa.Value(ph) && ef == ssa.Value(ph):
+				hi = ph
+			case et == ssa.Value(ph) && ef != ssa.Value(ph):
+				lo = ph
+			}
+		}
+		if hi == nil || lo == nil {
+			return
+		}
+		// the false edge advances low past the probe: low = mid + 1
+		if b2, ok := edge(lo, pf).(*ssa.BinOp); !ok || b2.Op != token.ADD || !isConstInt(b2.Y, 1) || b2.X != edge(hi, pt) {
+			return
+		}
+		switch bo.Op {
+		case token.GTR:
+			header, res, why = ht, "Right", "first index whose element is greater than the target"
+		case token.GEQ:
+			header, res, why = ht, "Left", "first index whose element is not less than the target"
+		}
+	})
+	return header, res, why
 }
